@@ -258,7 +258,7 @@ func (vc *VC) frameObligations(f0 *frame, exit *State, c *Contract) {
 		if h0 == h1 {
 			continue
 		}
-		conds := append([]string{"(< (rid r) alloc0)"}, excl...)
+		conds := append([]string{"(< (rid r) alloc0)", "(not (= r nil))"}, excl...)
 		goal := "(forall ((r Ref)) (=> " + and(conds...) + " (= (select " + h1 + " r) (select " + h0 + " r))))"
 		vc.oblige(exit, "frame."+h, goal, "frame: "+h+" unchanged outside the modifies clause", f0.fn.Pos(), false)
 	}
